@@ -28,7 +28,7 @@ def c02_scalar_bases(rep, algopy, rng, tier):
                 rep.violation('rpow:%s:exception' % type(r).__name__, '%s(%r) ** x raises %r' % (type(r).__name__, r, e), dict(kind='rpow', base=repr(r), base_type=type(r).__name__, x=x.tolist()))
                 break
             # the precision of the base's own type is the floor: float16 has 11 bits, float32 / complex64 24
-            bits = {'float16': 9, 'float32': 20, 'complex64': 20}.get(type(r).__name__, 40)
+            bits = {'float16': 5, 'float32': 15, 'complex64': 15}.get(type(r).__name__, 36)      # loose: what is looked for (a dropped imaginary part, a half-precision logarithm of an integer) is an error of 1e-4 .. 1
             ok = got.shape == want.shape and (numpy.iscomplexobj(want) <= numpy.iscomplexobj(got)) and bool(numpy.all(numpy.abs(got - want) <= 2.0 ** -bits * (1 + numpy.abs(want))))
             if not ok:
                 rep.violation('rpow:%s' % type(r).__name__, '%s(%r) ** x differs from exp(x log r) (result dtype %s)' % (type(r).__name__, r, got.dtype),
@@ -215,7 +215,8 @@ def c17_lu_factor_layouts(rep, algopy, rng, tier):
         for idx in numpy.ndindex(*A.shape):
             A[idx] = rng.randint(-8, 8) / 4
         for p in range(P):
-            A[0, p] += numpy.diag([rng.choice([3.0, -3.0, 4.0]) for _ in range(N)])
+            # a row-permuted strictly diagonally dominant matrix: never singular, partial pivoting really pivots
+            A[0, p] = numpy.array([[rng.randint(-4, 4) / 4 for _ in range(N)] for _ in range(N)]) + numpy.diag([rng.choice([5.0, -5.0, 6.0]) for _ in range(N)])
             A[0, p] = A[0, p][rng.sample(range(N), N)]
         layout = ['C', 'F', 'T', 'T-of-copy'][it % 4]
         held = lib.relayout(A.copy(), layout if layout != 'T-of-copy' else 'T')
@@ -319,7 +320,8 @@ def c08_overflowing_direction(rep, algopy, rng, tier, viol):
         for idx in numpy.ndindex(*A.shape):
             A[idx] = rng.randint(-8, 8) / 4
         for p in range(P):
-            A[0, p] += numpy.diag([rng.choice([3.0, 4.0, -3.0]) for _ in range(n)])
+            # strictly diagonally dominant base matrices (off-diagonal entries in [-1, 1], n <= 4): never singular
+            A[0, p] = numpy.array([[rng.randint(-4, 4) / 4 for _ in range(n)] for _ in range(n)]) + numpy.diag([rng.choice([5.0, 6.0, -5.0]) for _ in range(n)])
         bad_dir = it % 2                                    # the overflowing direction comes first / in the middle
         A[1:, bad_dir] *= 1e200
         rep.count('overflowing direction', bad_dir)
